@@ -441,6 +441,17 @@ def r107(ctx) -> None:
         cfg = cfg_of(f)
         good = {'uid': False, 'seq': False}
         bad = []
+        # one enumerator may be written in terms of the other
+        sib = [c for c in calls_in(f.node) if call_name(c) in (
+            'get_uids', 'get_all') and call_name(c) != name
+            and is_name(c.func.value, 'self')
+            and [txt(a) for a in c.args] == [f.params()[1]]]
+        if sib and not any(call_name(c) == 'flatten'
+                           for c in calls_in(f.node)):
+            R.ok(f, f.node, f'{name}: * = max_uid for UID sets, exists for '
+                 f'sequence sets', f'delegates to self.{call_name(sib[0])}'
+                 f'({f.params()[1]}), checked there')
+            continue
         for n in cfg.stmt_nodes():
             for c in n.calls():
                 if call_name(c) != 'flatten' or not c.args:
